@@ -2,8 +2,10 @@
    results.  Model: Model/Collection.v (SearchResultsCollection over a
    catalog's source and tag tables).  All theorems hold for EVERY collection
    reachable by any sequence of add() calls and EVERY catalog. *)
-From Coq Require Import String ZArith List Bool Permutation.
-From SK Require Import Model.Skel Model.Stm Model.SequenceSk Gen.SkelTree.
+From Coq Require Import String ZArith List Bool Permutation Lia.
+From SK Require Import Model.Skel Model.Stm Model.SequenceSk Model.CallCount
+     Proofs.CallCount Gen.SkelTree.
+From SK Require Model.Result.
 From SK Require Import Model.Collection Spec.Collection Proofs.CollectionDict
      Proofs.Collection Proofs.CollectionTop Proofs.CatalogTags Gen.XCatalog.
 Import ListNotations.
@@ -214,7 +216,8 @@ Theorem C14_statement_shapes_from_source :
   x_add_appends_by_resolved_path = true /\
   x_find_by_path_default_empty = true /\
   x_all_yields_every_value = true /\
-  x_result_meta_none_iff_slot_none = true.
+  x_result_meta_none_iff_slot_none = true /\
+  x_result_sequence_id_before_early_return = true.
 Proof. repeat split; reflexivity. Qed.
 
 (* the catalog side of find_sequence_by_tag: after ANY registration history
@@ -235,6 +238,58 @@ Theorem C14_register_tag_table_shape :
 Proof. vm_compute. reflexivity. Qed.
 Local Close Scope string_scope.
 
+(* ---- round 3: __init__ / reset / files / `data`, and ResultFieldInfo *)
+Local Open Scope string_scope.
+Theorem C14_collection_init_reset_shape :
+  tk_collection_init = [SEv (Call "reset")] /\
+  tk_collection_reset = [SEv (Wr "by_path")] /\
+  (forall t, trl tk_collection_init t ->
+             (count (is_call "reset") t <= 1)%nat).
+Proof.
+  split; [vm_compute; reflexivity|]. split; [vm_compute; reflexivity|].
+  intros t H. apply (count_bounded_list _ _ _ _ H). vm_compute. reflexivity.
+Qed.
+Local Close Scope string_scope.
+
+(* reset() re-initialises EVERY attribute that add() / __init__ maintain
+   (checked on the source by the plugin: a second, separately maintained
+   piece of state such as a running total must be reset too), so a reset
+   collection is the empty one: whatever is added afterwards, all views are
+   those of a collection built from the later batches alone *)
+Theorem C14_reset_then_add : forall cat bs,
+  x_reset_reinitialises_all_state = true /\
+  x_collection_init_resets = true /\ x_files_are_keys = true /\
+  x_data_is_copy_of_by_path = true /\
+  len reset = 0 /\ all reset = [] /\ files reset = [] /\
+  fold_left (add cat) bs reset = build cat bs /\
+  reachable cat (fold_left (add cat) bs reset).
+Proof.
+  intros cat bs. repeat split; try reflexivity. apply build_reachable.
+Qed.
+
+(* ResultFieldInfo (model: Model/Result.v of C05): a list of names carries
+   no types, ensure_type casts iff the field declares a type, and
+   index_to_name is the index-th name, failing exactly outside the range *)
+Theorem C14_field_info_from_source : forall (fi : Model.Result.finfo) i,
+  x_field_info_list_untyped = true /\
+  x_ensure_type_casts_iff_typed = true /\ x_index_to_name_is_nth = true /\
+  (Model.Result.index_to_name fi i = None <->
+   i < 0 \/ Z.of_nat (length fi) <= i).
+Proof.
+  intros fi i. repeat split; try reflexivity.
+  - unfold Model.Result.index_to_name. destruct (i <? 0) eqn:E.
+    + intros _. left. now apply Z.ltb_lt.
+    + apply Z.ltb_ge in E. intro H. right.
+      destruct (nth_error fi (Z.to_nat i)) eqn:En; [discriminate|].
+      apply nth_error_None in En. lia.
+  - unfold Model.Result.index_to_name. intros [H|H].
+    + apply Z.ltb_lt in H. now rewrite H.
+    + destruct (i <? 0); [reflexivity|].
+      assert (En : nth_error fi (Z.to_nat i) = None)
+        by (apply nth_error_None; lia).
+      now rewrite En.
+Qed.
+
 Print Assumptions C14_len_is_sum.
 Print Assumptions C14_all_eq_items.
 Print Assumptions C14_by_tag_exact.
@@ -244,3 +299,7 @@ Print Assumptions C14_sections_partition.
 Print Assumptions C14_path_filter_commutes.
 Print Assumptions C14_views_of_population.
 Print Assumptions C14_add_preserves_population.
+Print Assumptions C14_tag_table_complete.
+Print Assumptions C14_collection_init_reset_shape.
+Print Assumptions C14_reset_then_add.
+Print Assumptions C14_field_info_from_source.
